@@ -4,6 +4,7 @@
 #   env PROPS="C02 C03": only these checks are re-run and only their entries in meta.json are replaced;
 #   env PROPS=listed: per seed, its own property plus the checks recorded in its meta.json (re-validation after
 #   a change of the machinery at a fraction of the cost);
+#   env PROPS=own: per seed only its own property's check (plus up to three others where that one never reported it);
 #   env SEEDS=<regex>: only seeds whose id matches
 K="${1:-0}"; N="${2:-1}"
 cd /verif
@@ -18,6 +19,10 @@ for d in seeded/*/; do
   if [ "$PROPS" = "listed" ]; then
     # the seed's own property plus every check that reported it before
     P=$(python3 -c "import json,sys; m=json.load(open('seeded/$ID/meta.json')); print(' '.join(sorted(set([m['breaks_property']]+m['quick_checks_that_caught_it']))))")
+  fi
+  if [ "$PROPS" = "own" ]; then
+    # only the check of the property the seed targets; if that check never reported it, the ones that did
+    P=$(python3 -c "import json,sys; m=json.load(open('seeded/$ID/meta.json')); o=m['breaks_property']; c=m['quick_checks_that_caught_it']; print(o if o in c or not c else o+' '+' '.join(c[:3]))")
   fi
   C=$(MUT_SCRATCH=/tmp/mutR$K python3 tools/seedcheck.py seeded/$ID/patch.diff $P 2>&1)
   echo "$C" | sed "s/^/$ID: /"
